@@ -234,13 +234,13 @@ func (w *Writer) WriteRecord(framecount int64, timestamp int64, data []uint16) e
 		return fmt.Errorf("ljh incorrect number of samples, have %v, want %v", len(data), w.Samples)
 	}
 	subframeCount := framecount*int64(w.SubframeDivisions) + int64(w.SubframeOffset)
-	if _, err := w.writer.Write(getbytes.FromInt64(subframeCount)); err != nil {
-		return err
-	}
-	if _, err := w.writer.Write(getbytes.FromInt64(timestamp)); err != nil {
-		return err
-	}
-	if _, err := w.writer.Write(getbytes.FromSliceUint16(data)); err != nil {
+	// Hand the whole record to the asynchronous writer in a single Write. That Write never blocks:
+	// it fails when the write queue is full, so a record issued in several pieces could be cut short.
+	rec := make([]byte, 0, 16+2*len(data))
+	rec = append(rec, getbytes.FromInt64(subframeCount)...)
+	rec = append(rec, getbytes.FromInt64(timestamp)...)
+	rec = append(rec, getbytes.FromSliceUint16(data)...)
+	if _, err := w.writer.Write(rec); err != nil {
 		return err
 	}
 	w.RecordsWritten++
@@ -319,19 +319,14 @@ func (w *Writer3) WriteHeader() error {
 // timestamp is posix timestamp in microseconds since epoch
 // data can be variable length
 func (w *Writer3) WriteRecord(firstRisingSample int32, framecount int64, timestamp int64, data []uint16) error {
-	if _, err := w.writer.Write(getbytes.FromInt32(int32(len(data)))); err != nil {
-		return err
-	}
-	if _, err := w.writer.Write(getbytes.FromInt32(firstRisingSample)); err != nil {
-		return err
-	}
-	if _, err := w.writer.Write(getbytes.FromInt64(framecount)); err != nil {
-		return err
-	}
-	if _, err := w.writer.Write(getbytes.FromInt64(timestamp)); err != nil {
-		return err
-	}
-	if _, err := w.writer.Write(getbytes.FromSliceUint16(data)); err != nil {
+	// One Write per record: see Writer.WriteRecord.
+	rec := make([]byte, 0, 24+2*len(data))
+	rec = append(rec, getbytes.FromInt32(int32(len(data)))...)
+	rec = append(rec, getbytes.FromInt32(firstRisingSample)...)
+	rec = append(rec, getbytes.FromInt64(framecount)...)
+	rec = append(rec, getbytes.FromInt64(timestamp)...)
+	rec = append(rec, getbytes.FromSliceUint16(data)...)
+	if _, err := w.writer.Write(rec); err != nil {
 		return err
 	}
 	w.RecordsWritten++
